@@ -23,7 +23,7 @@ func (e *Engine) VerifyLemma(lem *Lemma, sp *ssa.Package) (res *FnResult) {
 	fv := &FnVerifier{eng: e, fc: fc, mode: mode, q: NewQuery(mode), env: map[ssa.Value]Val{},
 		arrSort: map[string]string{}, arrBase: map[string]bool{}, reach: map[*ssa.BasicBlock]string{}, names: map[string]Val{},
 		nameCount: map[string]int{}, fnShort: "lemma." + lem.Name, notes: map[string]bool{}, strLits: map[string]string{},
-		structSeen: map[string]bool{}, axiomsDone: map[string]bool{}, lockOf: map[ssa.Value]string{}}
+		structSeen: map[string]bool{}, axiomsDone: map[string]bool{}, lockOf: map[ssa.Value]string{}, strApps: map[string]string{}}
 	res = &FnResult{Fn: fv.fnShort, Query: fv.q, Mode: mode.String()}
 	defer func() {
 		if r := recover(); r != nil {
